@@ -547,7 +547,7 @@ func (P *Program) reachWalk(fn *ssa.Function, visit func(*ssa.Function) bool) {
 		}
 		seen[f] = true
 		falco := inFalco(f)
-		if falco || first {
+		if falco || first || !it.inExtern {
 			if !visit(f) {
 				return
 			}
